@@ -596,6 +596,43 @@ func configSpace(thorough bool) (cases []configCase, templates []configCase) {
 			add("passes/"+tpl.name+" as := "+as, configFiles(plainPipe, doc, noVeneers), doc)
 		}
 	}
+	// transformations that create references across packages: two inputs (p and
+	// q), the passes pointing fields/objects/references of p at objects of q
+	qSchema := `{"definitions":{"ID":{"type":"string"},"Count":{"type":"integer"},"E":{"type":"string","enum":["a","b"]},"S":{"type":"object","properties":{"kind":{"type":"string","const":"s"},"x":{"type":"string"}}},"MA":{"type":"object","additionalProperties":{"type":"string"}},"LA":{"type":"array","items":{"type":"string"}},"U":{"oneOf":[{"type":"string"},{"type":"integer"}]},"Q":{"type":"object","properties":{"id":{"$ref":"#/definitions/ID"},"count":{"$ref":"#/definitions/Count"},"e":{"$ref":"#/definitions/E"},"s":{"$ref":"#/definitions/S"},"ma":{"$ref":"#/definitions/MA"},"la":{"$ref":"#/definitions/LA"},"u":{"$ref":"#/definitions/U"}}}},"$ref":"#/definitions/Q"}`
+	twoInputs := strings.Replace(plainPipe, plainInput, plainInput+"  - jsonschema: {path: '%DIR%/q.json', package: q}\n", 1)
+	twoInputsQFirst := strings.Replace(plainPipe, plainInput, "  - jsonschema: {path: '%DIR%/q.json', package: q}\n"+plainInput, 1)
+	for _, target := range []string{"ID", "Count", "E", "S", "MA", "LA", "U", "Missing"} {
+		qref := `{kind: ref, ref: {referred_pkg: q, referred_type: ` + target + `}}`
+		for _, tpl := range []struct{ name, yaml string }{
+			{"retype_field", `passes: [{retype_field: {field: p.Root.name, as: ` + qref + `}}]`},
+			{"retype_field.union-first", `passes: [{retype_field: {field: p.Root.name, as: {kind: disjunction, disjunction: {branches: [` + qref + `, ` + tString + `]}}}}]`},
+			{"retype_field.union-second", `passes: [{retype_field: {field: p.Root.name, as: {kind: disjunction, disjunction: {branches: [` + tString + `, ` + qref + `]}}}}]`},
+			{"retype_field.union-with-local-ref", `passes: [{retype_field: {field: p.Root.name, as: {kind: disjunction, disjunction: {branches: [` + qref + `, {kind: ref, ref: {referred_pkg: p, referred_type: S}}]}}}}]`},
+			{"retype_field.array", `passes: [{retype_field: {field: p.Root.name, as: {kind: array, array: {value_type: ` + qref + `}}}}]`},
+			{"retype_field.map", `passes: [{retype_field: {field: p.Root.name, as: {kind: map, map: {indextype: ` + tString + `, valuetype: ` + qref + `}}}}]`},
+			{"retype_field.constant_ref", `passes: [{retype_field: {field: p.Root.name, as: {kind: constant_ref, constantreference: {referred_pkg: q, referred_type: ` + target + `, reference_value: a}}}}]`},
+			{"retype_object", `passes: [{retype_object: {object: p.K, as: ` + qref + `}}]`},
+			{"add_object", `passes: [{add_object: {object: p.Added, as: ` + qref + `}}]`},
+			{"add_fields", `passes: [{add_fields: {to: p.Root, fields: [{name: extra, type: ` + qref + `, required: true}]}}]`},
+			{"replace_reference.to", `passes: [{replace_reference: {from: p.S, to: q.` + target + `}}]`},
+			{"replace_reference.from", `passes: [{replace_reference: {from: q.` + target + `, to: p.S}}]`},
+			{"duplicate_object.into-p", `passes: [{duplicate_object: {object: q.` + target + `, as: p.Copy}}]`},
+			{"duplicate_object.into-q", `passes: [{duplicate_object: {object: p.S, as: q.` + target + `}}]`},
+			{"rename_object", `passes: [{rename_object: {from: q.` + target + `, to: Renamed}}]`},
+			{"omit", `passes: [{omit: {objects: [q.` + target + `]}}]`},
+			{"fields_set_default", `passes: [{retype_field: {field: p.Root.name, as: ` + qref + `}}, {fields_set_default: {defaults: {p.Root.name: {x: v}}}}]`},
+		} {
+			for _, pipe := range []struct{ name, yaml string }{{"", twoInputs}, {" (q first)", twoInputsQFirst}} {
+				if pipe.name != "" && !thorough {
+					continue
+				}
+				files := configFiles(pipe.yaml, tpl.yaml, noVeneers)
+				files["q.json"] = qSchema
+				add("passes/two packages"+pipe.name+": "+tpl.name+" -> q."+target, files, tpl.yaml)
+			}
+		}
+	}
+
 	// struct-level defaults through fields_set_default (defaults.go)
 	cases = append(cases, structDefaultConfigCases(plainPipe)...)
 
